@@ -36,6 +36,9 @@ type starVariant struct {
 	// management API before the traffic starts (DS added and removed; a second
 	// CS instance added, the first removed).
 	SvcChurn bool `json:"svc_churn,omitempty"`
+	// V6Internal: the router's internal address (the source of the SCMP
+	// messages it originates) is an IPv6 address.
+	V6Internal bool `json:"v6_internal,omitempty"`
 }
 
 // newFuzzStar builds the configuration number v.Idx of the run
@@ -60,6 +63,7 @@ func newFuzzStar(r *mon.Run, v starVariant) *rfix.Star {
 		ReuseLocal: v.Reuse,
 		SCMPAuth:   v.Auth,
 		RangeSet:   true, PortStart: 31000, PortEnd: 32767,
+		InternalAddr: map[bool]string{true: "[fd00:77::1]:30042", false: ""}[v.V6Internal],
 		Svc: map[addr.SVC][]netip.AddrPort{
 			addr.SvcCS: {netip.MustParseAddrPort("10.0.0.77:30252")},
 		},
